@@ -633,6 +633,25 @@ func c11pack(p *Program, r *Report, nb, nf *ssa.Function) {
 								sites = append(sites, site{fn: fn, byteIdx: tb.Term(ia.Index).String(), bitP: tb.Term(sh.Y).String(), pos: and.Pos()})
 							}
 						}
+						// shift-and-mask form: (Flags[i/8] >> (i%8)) & 1
+						for _, pr := range [][2]ssa.Value{{and.X, and.Y}, {and.Y, and.X}} {
+							if k, isK := constInt(pr[1]); !isK || k != 1 {
+								continue
+							}
+							sh, ok := pr[0].(*ssa.BinOp)
+							if !ok || sh.Op != token.SHR {
+								continue
+							}
+							ld, ok := sh.X.(*ssa.UnOp)
+							if !ok {
+								continue
+							}
+							ia, ok := ld.X.(*ssa.IndexAddr)
+							if !ok || !strings.Contains(exprString(ia.X), "Flags") {
+								continue
+							}
+							sites = append(sites, site{fn: fn, byteIdx: tb.Term(ia.Index).String(), bitP: tb.Term(sh.Y).String(), pos: and.Pos()})
+						}
 					}
 				}
 			}
